@@ -26,7 +26,7 @@ def main():
         elif prop == "C02":
             from . import check_c02
             rc = check_c02.run(prop, a.tier, seed)
-        elif prop in ("C06", "C16"):
+        elif prop in ("C06", "C16", "C09", "C10", "C11"):
             from . import check_derived
             rc = check_derived.run(prop, a.tier, seed)
         else:
